@@ -667,6 +667,35 @@ def finish_hash_children(res, structs, procs):
 
 
 # ----------------------------------------------------------------------------- the real enumeration
+def sampler_history(toks, stub):
+    """multi-step history: use the test sampler, then look at the enumeration again - it must be what it was.  `stub`: the cached 5.9-million-element
+    set all_tokenizers_set() is replaced by a small set (a seeded sample plus the always-included tokenizers) so that the quick tier can afford it;
+    the functions under check (_all_tokenizers_except_every_test_tokenizers, sample_tokenizers_for_test) are the real ones either way.
+    -> list of complaints"""
+    from maze_dataset.tokenization import all_tokenizers as AT
+
+    out = []
+    every = list(AT.EVERY_TEST_TOKENIZERS)
+    if stub:
+        rng = np.random.default_rng(5)
+        small = set(toks[int(i)] for i in rng.integers(0, len(toks), size=300)) | set(every)
+        AT.all_tokenizers_set = lambda: small
+        AT._all_tokenizers_except_every_test_tokenizers.cache_clear()
+        the_set, n_before = small, len(small)
+    else:
+        the_set = AT.all_tokenizers_set()
+        n_before = len(the_set)
+    smp = AT.sample_tokenizers_for_test(len(every) + 8)
+    if len(smp) != len(every) + 8 or not all(t in smp for t in every) or len(set(smp)) != len(smp):
+        out.append(f"sample_tokenizers_for_test({len(every) + 8}) returned {len(smp)} tokenizers, {len(set(smp))} distinct, all always-included ones present: {all(t in smp for t in every)}")
+    again = AT.all_tokenizers_set()
+    if len(again) != n_before or not all(t in again for t in every):
+        out.append(f"after sample_tokenizers_for_test the enumerated set has {len(again)} members (was {n_before}); the always-included tokenizers are still members: {all(t in again for t in every)}")
+    if len(AT.get_all_tokenizers()) != len(toks):
+        out.append(f"after sample_tokenizers_for_test get_all_tokenizers() has {len(AT.get_all_tokenizers())} entries (was {len(toks)})")
+    return out
+
+
 def _bg_enumerate(args):
     """child process (quick tier): the real full enumeration - its length and the structures at seeded positions"""
     seed, nsample = args
@@ -682,7 +711,13 @@ def _bg_enumerate(args):
     n = len(toks)
     rng = np.random.default_rng(seed + 17)
     idx = sorted(set(int(i) for i in rng.integers(0, n, size=nsample)) | {0, n - 1}) if n else []
-    return n, [(i, struct_of(toks[i])) for i in idx], time.time() - t0
+    pos = [(i, struct_of(toks[i])) for i in idx]
+    if nsample and n:
+        try:
+            pos.append(("history", sampler_history(toks, stub=True)))
+        except Exception as e:  # noqa: BLE001 - raised by the code under check
+            pos.append(("history", [f"the sampler history raised {type(e).__name__}: {str(e)[:160]}"]))
+    return n, pos, time.time() - t0
 
 
 ENUM_SECONDS = 420  # the unchanged enumeration takes ~45 s (5.9 million objects, ~3 GB)
@@ -854,6 +889,13 @@ def full_space(res, raw, seed):
     if n != want_n:
         res.fail("C15:count", f"len(get_all_tokenizers()) = {n}, the type space minus the documented rules has {want_n}", {"check": "count"}, n)
     _ALL["toks"] = toks
+    # multi-step history on the REAL enumerated set (thorough tier): use the sampler, then look at the set again
+    try:
+        raw.seen(("history", "sampler"), nontrivial=True)
+        for msg in sampler_history(toks, stub=False):
+            res.fail("C15:enumeration-changes-by-use", msg, {"check": "history"}, msg)
+    except Exception as e:  # noqa: BLE001 - raised by the code under check
+        res.fail("C15:enumeration-changes-by-use", f"the sampler history raised {type(e).__name__}: {str(e)[:160]}", {"check": "history"}, repr(e)[:200])
     step = 30_000
     pmap(res, _work_slice, [(lo, min(lo + step, n), 53) for lo in range(0, n, step)], procs=16)
     parts = sorted(_pull(raw, "__arrays__"), key=lambda e: e[1])
@@ -948,7 +990,7 @@ def run(tier, seed):
             "all enumerated tokenizers: structures equal to the enumerator's (both directions, no duplicates), is_valid, names (16-byte digests) and hash() pairwise distinct, "
             "legacy-equivalence on every one, save/load on every 53rd; "
             if tier == "thorough"
-            else "exact count of get_all_tokenizers() against the enumerator; "
+            else "exact count of get_all_tokenizers() against the enumerator; history: the test sampler is used and the enumerated set looked at again (on a stubbed 300-element set in the quick tier, on the real set in the thorough tier); "
         )
         + "a seeded uniform sample of 20,000 tokenizer configurations drawn from the enumerator plus one-element neighbours of 200 of them and the images of the legacy modes: "
         "is_valid, name / hash() / hash_int() pairwise distinct, equal for a rebuilt equal object, load(serialize(t)) == t with the same name, is_legacy_equivalent exactly for the "
@@ -1040,6 +1082,11 @@ def run(tier, seed):
                 c_tok.fail("C15:count", f"len(get_all_tokenizers()) = {n}, the type space minus the documented rules has {total}", {"check": "count"}, n)
             seen_pos = set()
             for i, s in positions:
+                if i == "history":
+                    r_tok.seen(("history", "sampler"), nontrivial=True, sample={"history": "sample_tokenizers_for_test, then the enumerated set again (stubbed small set in the quick tier)"})
+                    for msg in s:
+                        c_tok.fail("C15:enumeration-changes-by-use", msg, {"check": "history"}, msg)
+                    continue
                 r_tok.seen(("real", digest(s)), nontrivial=True)
                 inp = {"check": "tokenizer", "tokenizer": enc(s), "position": i}
                 if not spec_valid(s):
@@ -1118,6 +1165,12 @@ def replay(check_name, inp):
     elif kind == "hashseed":
         s = dec(inp["tokenizer"])
         finish_hash_children(res, [s], start_hash_children([s], seeds=(str(inp.get("seed", "1")),)))
+    elif kind == "history":
+        n, pos, _secs = _bg_enumerate((0, 1))
+        for i, msgs in pos:
+            if i == "history":
+                for msg in msgs:
+                    res.fail("C15:enumeration-changes-by-use", msg, inp, msg)
     elif kind == "count":
         n, _pos, _secs = _bg_enumerate((0, 0))
         total = spec_count(MTM(), True)
